@@ -388,3 +388,40 @@ pub fn wd_start(report: Option<String>, budget_ns: u64) {
         }
     });
 }
+
+// ---------------------------------------------------------------------------------------
+// environment-independence lane (C17): the LD_PRELOAD interposer harness/shim/jlshim.c, if loaded
+
+type ShimArm = unsafe extern "C" fn(i32);
+type ShimTake = unsafe extern "C" fn(*mut u8, usize) -> u64;
+
+pub fn shim() -> Option<(ShimArm, ShimTake)> {
+    if cfg!(miri) {
+        return None;
+    }
+    unsafe {
+        let a = libc::dlsym(libc::RTLD_DEFAULT, b"jl_shim_arm\0".as_ptr() as *const libc::c_char);
+        let t = libc::dlsym(libc::RTLD_DEFAULT, b"jl_shim_take\0".as_ptr() as *const libc::c_char);
+        if a.is_null() || t.is_null() {
+            return None;
+        }
+        Some((std::mem::transmute::<*mut libc::c_void, ShimArm>(a), std::mem::transmute::<*mut libc::c_void, ShimTake>(t)))
+    }
+}
+
+/// `apply` with the calling thread armed in the interposer; returns the outcome, how many
+/// environment / clock / random / file sources were consulted during the call, and which.
+pub fn call_armed(sh: (ShimArm, ShimTake), rule: &Value, data: &Value) -> (Outcome, u64, String) {
+    let mut buf = vec![0u8; 4096];
+    unsafe {
+        let _ = (sh.1)(buf.as_mut_ptr(), buf.len());
+        (sh.0)(1);
+    }
+    let out = call(rule, data);
+    let n = unsafe {
+        (sh.0)(0);
+        (sh.1)(buf.as_mut_ptr(), buf.len())
+    };
+    let end = buf.iter().position(|b| *b == 0).unwrap_or(buf.len());
+    (out, n, String::from_utf8_lossy(&buf[..end]).to_string())
+}
